@@ -138,7 +138,7 @@ func table(in json.RawMessage, res *vh.Result) error {
 	}
 	leafBad := map[string]string{} // J(leaf)|J(tags) -> sig of the leaf-level mismatch
 	hashes := map[[32]byte]string{}
-	collisions := 0
+	collided := map[string]bool{}
 	var collisionSample []string
 	classes := map[string]int{}
 
@@ -224,11 +224,11 @@ func table(in json.RawMessage, res *vh.Result) error {
 			}
 			// remark only (the property does not ask for it): different trees with one hash
 			if prev, ok := hashes[h0]; ok && prev != tkey {
-				collisions++
-				if len(collisionSample) < 3 {
+				if !collided[tkey] && len(collisionSample) < 3 {
 					collisionSample = append(collisionSample, prev+"  ~  "+tkey)
 				}
-			} else {
+				collided[tkey] = true
+			} else if !ok {
 				hashes[h0] = tkey
 			}
 		}
@@ -243,7 +243,7 @@ func table(in json.RawMessage, res *vh.Result) error {
 	}
 	res.Extra["classes"] = classes
 	res.Extra["distinct_trees"] = len(hashes)
-	res.Extra["hash_collisions_between_different_trees"] = collisions
+	res.Extra["hash_collisions_between_different_trees"] = len(collided)
 	if len(collisionSample) > 0 {
 		res.Extra["hash_collision_samples"] = collisionSample
 	}
